@@ -7,6 +7,7 @@ import Driver.Proto
 import Driver.Conc
 import Driver.HTreeE
 import Driver.ConcFineE
+import Driver.ConcGCE
 import Driver.Qlz
 
 open Driver
@@ -24,6 +25,7 @@ def main (args : List String) : IO UInt32 := do
     | ["conc"] => Driver.Conc.run lines
     | ["htree"] => Driver.HTreeE.run lines
     | ["concfine"] => Driver.ConcFineE.run lines
+    | ["concgc"] => Driver.ConcGCE.run lines
     | ["qlz"] => Driver.QlzE.run lines
     | _ => do IO.eprintln "usage: driver <engine> < trace"; return 2
   IO.println s!"SUMMARY lines={lines.size} checked={rep.checked} diffs={rep.diffs}"
